@@ -7,7 +7,7 @@
 4. the Lean oracle `Cnn.check` on the *implementation's* behaviour for every case;
 5. on a broken correspondence / proof: search for a failing input, report per the protocol.
 """
-import argparse, collections, importlib, json, os, random, sys, time
+import argparse, collections, importlib, json, os, random, re, sys, time
 
 sys.path.insert(0, os.path.dirname(os.path.abspath(__file__)))
 import core
@@ -43,13 +43,29 @@ def main():
     cov = {}
     known_lines = []
 
+    table_thms = ["Portus.Tables." + x for x in getattr(mod, "TABLE_THEOREMS", ())]
+    tables_broken = None
+    audit_imports = list(getattr(mod, "AUDIT_IMPORTS", ()))
     try:
         if hasattr(mod, "pre"):
             mod.pre(ctx)
+        if table_thms:
+            core.extract_tables()
         tb = core.build_harness()
         if getattr(mod, "NEEDS_CVM", False):
             core.build_cvm()
-        tl = core.build_lean(["pmodel", "PortusModel.Props." + prop] + list(getattr(mod, "AUDIT_IMPORTS", ())))
+        targets = ["pmodel", "PortusModel.Props." + prop] + audit_imports
+        try:
+            tl = core.build_lean(targets + (["PortusModel.Props.Tables"] if table_thms else []))
+            if table_thms:
+                audit_imports.append("PortusModel.Props.Tables")
+        except Fail as e:
+            if not table_thms or ("Props/Tables" not in str(e) and "Generated/Tables" not in str(e) and "Props.Tables" not in str(e)):
+                raise
+            # the obligations about the tables translated from the sources no longer check (DESIGN 11.7): everything else must
+            # still build; the correspondence and the oracle below are then the search for a failing input
+            tables_broken = str(e)
+            tl = core.build_lean(targets)
         notes.append("harness build %.1fs, lake build %.1fs" % (tb, tl))
         built = True
     except Fail as e:
@@ -70,22 +86,25 @@ def main():
         # ---------------- proof audit
         bad = core.grep_audit()
         proof["forbidden_tokens"] = bad
-        ax = core.axiom_audit(prop, mod.THEOREMS, getattr(mod, "AUDIT_IMPORTS", ())) if mod.THEOREMS else {}
-        proof["obligations"] = len(mod.THEOREMS)
-        for t in mod.THEOREMS:
+        all_thms = list(mod.THEOREMS) + table_thms
+        ax = core.axiom_audit(prop, list(mod.THEOREMS) + ([] if tables_broken else table_thms), audit_imports) if all_thms else {}
+        proof["obligations"] = len(all_thms)
+        for t in all_thms:
             axs = ax.get(t)
             ok = axs is not None and set(axs) <= core.ALLOWED_AXIOMS
             proof["theorems"][t] = axs if axs is not None else "MISSING"
             if ok:
                 proof["discharged"] += 1
-        lc_mods = ["PortusModel.Props." + prop] + [m for m in getattr(mod, "AUDIT_IMPORTS", ()) if m != "PortusModel.Props." + prop]
+        lc_mods = ["PortusModel.Props." + prop] + [m for m in audit_imports if m != "PortusModel.Props." + prop]
         okc, msg = core.leancheck(lc_mods, fresh=False)
         proof["leanchecker"] = ("ok: " + " ".join(lc_mods)) if okc else msg
         if okc and tier == "thorough" and not a.replay:
             # replay the whole import closure of the property's top module from scratch
             okc, msg = core.leancheck(lc_mods[-1:], fresh=True)
             proof["leanchecker"] = ("ok: " + " ".join(lc_mods) + "; --fresh " + lc_mods[-1]) if okc else msg
-        if bad or proof["discharged"] != proof["obligations"] or not okc:
+        if tables_broken:
+            pass  # reported below, together with whatever the search finds
+        elif bad or proof["discharged"] != proof["obligations"] or not okc:
             violations.append(("proof", {"property": prop, "kind": "no-failing-input-found",
                                          "relation": "proof audit", "forbidden_tokens": bad,
                                          "theorems": proof["theorems"], "leanchecker": proof["leanchecker"]}))
@@ -248,6 +267,19 @@ def main():
         elif disagree:
             notes.append("%d model disagreements (reported separately from the %d oracle failures)" % (len(disagree), len(oracle_fail)))
 
+    if tables_broken:
+        gen = open(os.path.join(core.LEAN, "PortusModel", "Generated", "Tables.lean")).read()
+        broken = sorted(set(re.findall(r"Props/Tables\.lean:(\d+):", tables_broken)))
+        info = {"theorems": table_thms, "file": "lean/PortusModel/Props/Tables.lean", "failing_lines": broken,
+                "meaning": "a closed table translated from /repo/src (or libccp's headers) is no longer the table the model and its theorems use, or portus' numbering no longer matches libccp's",
+                "build_error": tables_broken[-2500:], "generated": gen[:6000]}
+        fi = [v for v in violations if v[0] == "failing-input"]
+        if fi:
+            fi[0][1]["broken_obligation"] = info
+        else:
+            violations.append(("proof", dict({"property": prop, "kind": "no-failing-input-found",
+                                              "relation": "theorems of Props/Tables.lean over Generated/Tables.lean (translated from the sources on this run)",
+                                              "searched": "correspondence and oracle on %d cases found no input on which the property fails" % cov.get("evaluations", 0)}, **info)))
     wall = time.time() - t0
     ev = {
         "property_id": prop, "tier": tier, "seed": seed, "level": "proof",
